@@ -488,7 +488,22 @@ impl<'t> W<'t> {
                 self.used("REDIM");
                 if let Some((a, dims, _)) = self.pick_array_any() {
                     if a.starts_with("RD") {
-                        let b: Vec<String> = (0..dims).map(|_| format!("{}", self.t.range(1, 5))).collect();
+                        // bounds are literals or, now and then, run-time values and `lower TO upper` pairs - also reversed ones
+                        // (upper below lower in one dimension: Subscript out of range / Illegal function call, never a crash)
+                        let mut b: Vec<String> = vec![];
+                        for _ in 0..dims {
+                            let d = match self.t.choose(6) {
+                                4 => format!("{} TO {}", self.num(0), self.num(0)),
+                                5 => {
+                                    let lo = self.t.range(-2, 5);
+                                    let hi = self.t.range(-3, 6);
+                                    format!("{} TO {}", lo, hi)
+                                }
+                                3 => self.num(0),
+                                _ => format!("{}", self.t.range(1, 5)),
+                            };
+                            b.push(d);
+                        }
                         self.emit(format!("REDIM {}({})", a, b.join(", ")));
                         if self.t.chance(1, 3) {
                             // dimensioned again right away (inside a subprogram this is the second REDIM of a SHARED array)
